@@ -16,6 +16,7 @@ package c07
 import (
 	"fmt"
 	"testing"
+	"unicode/utf16"
 
 	"github.com/tsawler/tabula/core"
 	"github.com/tsawler/tabula/font"
@@ -90,10 +91,54 @@ func checkEncStr(c EncStrCase) error {
 	default:
 		return fmt.Errorf("generator bug: route %q", c.Route)
 	}
+	if c.Route != "table" && hasBOM(data) {
+		// Font.DecodeString ranks a UTF-16 byte-order mark above the named encoding (the documented
+		// priority), so a code string that happens to start with FE FF or FF FE is UTF-16 text.
+		if err := goodText("Font.DecodeString", got); err != nil {
+			return fmt.Errorf("%s via %s: <% x>: %v", c.Encoding, c.Route, data, err)
+		}
+		if ref, ok := refUTF16(data); ok && got != nfc(ref) {
+			return fmt.Errorf("%s via %s: <% x> starts with a byte-order mark and decodes to %+q, want the UTF-16 text %+q", c.Encoding, c.Route, data, got, ref)
+		}
+		return nil
+	}
 	if norm.NFC.String(got) != want {
 		return fmt.Errorf("%s via %s (previous encoding %q, base absent %v): <% x> decodes to %+q, the codes one by one give %+q", c.Encoding, c.Route, c.Prev, c.NoBase, data, got, want)
 	}
 	return nil
+}
+
+func hasBOM(data []byte) bool {
+	return len(data) >= 2 && (data[0] == 0xFE && data[1] == 0xFF || data[0] == 0xFF && data[1] == 0xFE)
+}
+
+// refUTF16 decodes the code units after the byte-order mark; ok is false when they are not well-formed
+// UTF-16 (odd length, lone surrogate), for which only valid UTF-8 in NFC is demanded.
+func refUTF16(data []byte) (string, bool) {
+	body := data[2:]
+	if len(body)%2 != 0 {
+		return "", false
+	}
+	units := make([]uint16, 0, len(body)/2)
+	for i := 0; i+1 < len(body); i += 2 {
+		if data[0] == 0xFE {
+			units = append(units, uint16(body[i])<<8|uint16(body[i+1]))
+		} else {
+			units = append(units, uint16(body[i+1])<<8|uint16(body[i]))
+		}
+	}
+	for i := 0; i < len(units); i++ {
+		switch u := units[i]; {
+		case u >= 0xD800 && u <= 0xDBFF:
+			if i+1 >= len(units) || units[i+1] < 0xDC00 || units[i+1] > 0xDFFF {
+				return "", false
+			}
+			i++
+		case u >= 0xDC00 && u <= 0xDFFF:
+			return "", false
+		}
+	}
+	return string(utf16.Decode(units)), true
 }
 
 func genEncStr(t *rapid.T) EncStrCase {
@@ -137,6 +182,9 @@ func metaEncStr(c EncStrCase) vr.Meta {
 	}
 	if c.NoBase {
 		l = append(l, "encstr:no-base-encoding")
+	}
+	if len(c.Codes) >= 2 && hasBOM([]byte{byte(c.Codes[0]), byte(c.Codes[1])}) {
+		l = append(l, "encstr:bom-prefix")
 	}
 	return vr.Meta{FP: fmt.Sprintf("%+v", c), NonTrivial: undefined || c.Route != "table", Labels: l}
 }
